@@ -428,7 +428,7 @@ def make_machine(interp_factory, workdir, col):
         def save_samples(self, cls, xp, dtype, fields, flat, n, d, seed, named):
             self.do("save_samples", cls=cls, xp=xp, dtype=dtype, fields=list(fields), flat=flat, n=n, d=d, seed=seed, named=named)
 
-        @rule(kind=st.sampled_from(["flow", "smc", "smc"]), xp=xp_s, dtype=dt_s, n_iter=st.integers(1, 4), seed=st.integers(0, 999), with_pops=st.booleans())
+        @rule(kind=st.sampled_from(["flow", "smc", "smc"]), xp=xp_s, dtype=dt_s, n_iter=st.one_of(st.integers(1, 4), st.integers(1, 4), st.integers(9, 13)), seed=st.integers(0, 999), with_pops=st.booleans())
         def save_history(self, kind, xp, dtype, n_iter, seed, with_pops):
             self.do("save_history", kind=kind, xp=xp, dtype=dtype, n_iter=n_iter, seed=seed, with_pops=with_pops)
 
